@@ -139,8 +139,56 @@ def run_case(case: dict[str, Any]) -> dict[str, Any]:
     return {'issues': issues, 'case': kc}
 
 
+def world_of_one(case: dict[str, Any]) -> list[tuple[str, dict]]:
+    """torch.distributed INITIALISED with a single rank (torchrun
+    --nproc_per_node=1): KfacDist derives the empty program for W = 1 --
+    nothing is communicated, the rank keeps everything, results equal the
+    run without torch.distributed."""
+    cfg = kaisa.Config(**case['cfg'])
+    h = [['train', 1], ['step'], ['train', 1], ['step'], ['mem'],
+         ['save', True], ['load', True], ['train', 1], ['step']]
+    res = kaisa.run(cfg, h, simdist.LazyCompletion(case['seed']),
+                    seed=case['seed'])
+    solo = kaisa.run(cfg, h, None, seed=case['seed'])
+    out = []
+    for r in (res, solo):
+        if any(r.errors):
+            out.append((f'world of one: {[e for e in r.errors if e][0]}'[:300],
+                        {'kind': 'w1', 'sub': 'raise'}))
+            return out
+    issued = [e for e in res.events if e.get('ev') == 'issue']
+    if issued:
+        kinds = sorted({e.get('kind') for e in issued})
+        out.append((f'{len(issued)} collective(s) issued in an initialised '
+                    f'world of one: {kinds}', {'kind': 'w1', 'sub': 'comm'}))
+    for a, b in zip(res.ranks[0].snaps, solo.ranks[0].snaps):
+        for n in a['grads']:
+            if not torch.equal(a['grads'][n], b['grads'][n]):
+                out.append((f'world of one: gradient {n} differs from the '
+                            'run without torch.distributed',
+                            {'kind': 'w1', 'sub': 'grad'}))
+                return out
+        if a['hold'] != b['hold']:
+            out.append(('world of one: second-order data held differs from '
+                        'the run without torch.distributed',
+                        {'kind': 'w1', 'sub': 'hold'}))
+    return out
+
+
 def main(tier: str, seed: int) -> int:
     v = Verdict(PROP, tier, seed, 'model_checking')
+    w1 = []
+    for i, (method, prediv) in enumerate(
+            [('eigen', True), ('eigen', False), ('inverse', False)]):
+        for j, cap in enumerate([25.0, 0.0]):
+            w1.append({'cfg': dict(W=1, k=1, method=method, prediv=prediv,
+                                   bucket_cap_mb=cap, symmetry=bool((i + j) % 2),
+                                   model=['mlp3', 'mixb'][j], F=1, I=1 + j),
+                       'seed': seed + i})
+    for c, lst in zip(w1, pmap(world_of_one, w1)):
+        for what, sig in lst:
+            v.violation(f'{what} :: {json.dumps(c["cfg"])}', sig,
+                        replay={'w1': c})
     worlds = [2, 4] if tier == 'quick' else [2, 3, 4, 6, 8]
     r0, tuples = config_lattice.enumerate_configs(worlds, ['zero', 'tiny', 'big'])
     valid = [t['c'] for t in tuples if not t['d']['rejected']]
@@ -289,6 +337,10 @@ def main(tier: str, seed: int) -> int:
 
 def replay(path: str) -> int:
     rec = json.load(open(path))
+    if 'w1' in rec['replay']:
+        r = world_of_one(rec['replay']['w1'])
+        print(r)
+        return 1 if r else 0
     cs = rec['replay']['case']
     o = run_case(cs)
     print(o['issues'])
